@@ -108,19 +108,31 @@ func (w *World) encForms(fn *ssa.Function) *encInfo {
 	return e
 }
 
-func (w *World) decTable(fn *ssa.Function) *[256]tagRun {
+type decTab struct {
+	w    *World
+	fn   *ssa.Function
+	done [256]bool
+	runs [256]tagRun
+}
+
+func (d *decTab) at(t int) tagRun {
+	if !d.done[t] {
+		d.runs[t] = d.w.pxDecodeTag(d.fn, t)
+		d.done[t] = true
+	}
+	return d.runs[t]
+}
+
+func (w *World) decTable(fn *ssa.Function) *decTab {
 	if w.decCache == nil {
-		w.decCache = map[*ssa.Function]*[256]tagRun{}
+		w.decCache = map[*ssa.Function]*decTab{}
 	}
 	if t, ok := w.decCache[fn]; ok {
 		return t
 	}
-	var tbl [256]tagRun
-	for t := 0; t < 256; t++ {
-		tbl[t] = w.pxDecodeTag(fn, t)
-	}
-	w.decCache[fn] = &tbl
-	return &tbl
+	t := &decTab{w: w, fn: fn}
+	w.decCache[fn] = t
+	return t
 }
 
 // ruleNumEncoder: int / long encoders (see DESIGN C07.R1/R2).
@@ -264,7 +276,7 @@ func (w *World) ruleDecoderForms(r *Report, rule, cname string) {
 		ok := true
 		var facts []string
 		for t := sf.Lo; t <= sf.Hi && len(facts) < 4; t++ {
-			run := tbl[t]
+			run := tbl.at(int(t))
 			switch {
 			case run.Rejected && !run.OK:
 				ok = false
@@ -317,7 +329,7 @@ func (w *World) rulePairOctets(r *Report, rule, cname string) {
 		ok := true
 		fact := fmt.Sprintf("first octets %s: decoder pulls %d octet(s) = form length - 1", ts.HexString(), len(fm.Oct)-1)
 		for _, t := range tags {
-			run := tbl[t]
+			run := tbl.at(int(t))
 			if !run.OK {
 				ok, fact = false, fmt.Sprintf("first octet x%02x emitted by the encoder is not accepted by the decoder", t)
 				break
@@ -602,7 +614,7 @@ func (w *World) dateEncoderForms(r *Report, ruleExact, ruleWin, ruleZero string,
 
 // decoderDateUnit: the unit in which the date decoder interprets tag t.
 func (w *World) decoderDateUnit(dec *ssa.Function, t int) (string, string) {
-	run := w.decTable(dec)[t]
+	run := w.decTable(dec).at(t)
 	if !run.OK || run.Ret == nil {
 		return "?", "-"
 	}
@@ -681,7 +693,7 @@ func (w *World) ruleLenReader(r *Report, rule, cname string) {
 		fact := ""
 		ts, _ := tags.Elems(256)
 		for _, t := range ts {
-			run := tbl[t]
+			run := tbl.at(int(t))
 			if !run.OK {
 				ok, fact = false, fmt.Sprintf("tag x%02x is not accepted by the length reader", t)
 				break
